@@ -85,6 +85,10 @@ def rule_chain(ctx):
     elif isinstance(pair_src, tuple) and pair_src[:1] == ("call",) and pair_src[1].endswith("tuple_windows") and len(pair_src[2]) == 1:
         base = pair_src[2][0]
         left, right = ("proj", ("each", pair_src), (("tuple", "0"),)), ("proj", ("each", pair_src), (("tuple", "1"),))
+    elif isinstance(pair_src, tuple) and pair_src[:2] == ("call", "Iterator::zip") and len(pair_src[2]) == 2 and pair_src[2][1] == ("call", "Iterator::skip", (pair_src[2][0], ("lit", 1))):
+        # `v.iter().zip(v.iter().skip(1))`: every element with its successor
+        base = pair_src[2][0]
+        left, right = ("proj", ("each", pair_src), (("tuple", "0"),)), ("proj", ("each", pair_src), (("tuple", "1"),))
     ok_loop = base is not None and sorted_ok(base)
     ctx.add("CHAIN", "sorted-consecutive", ok_loop and not conds, site,
             "the axioms range over the consecutive pairs of the *sorted* vector of self.symbols() (the source of the symbol declarations), unconditionally", construct=loops)
